@@ -11,7 +11,7 @@ import re
 import subprocess
 
 HEADER = """From JsonSyntax Require Import Base.Prelude Base.Value Base.Unicode Base.Source
-  Model.Parser Model.EntryPoints Model.Printer Model.Unordered Model.Compare Model.CodeMapNav Spec.Layout Spec.Minimal.
+  Model.Parser Model.EntryPoints Model.Printer Model.Unordered Model.Compare Model.CodeMapNav Model.Kind Spec.Layout Spec.Minimal.
 From JsonSyntax Require Model.Macro Model.MacroFloat Spec.MacroDoc.
 Import ListNotations.
 Open Scope N_scope.
@@ -157,6 +157,53 @@ def case_term(fam, case):
             return f"parse_str_with {opts_term(t[1])} {cps_term(t[2])}"
         if t[0] == "b":
             return f"parse_slice_with {opts_term(t[1])} {cps_term(t[2])}"
+    if fam == "c01":
+        if t[0] == "s":
+            cs = cps_term(t[2])
+            return (f"(true, [parse_str {cs}; parse_str_with strict {cs}; parse_utf8 {cs}; parse_utf8_with strict {cs}; "
+                    f"parse_infallible_utf8 {cs}; parse_utf8_infallible_with strict {cs}; parse (chars {cs}); "
+                    f"parse_with strict (chars {cs}); parse (chars {cs}); parse_with strict (chars {cs})], from_str {cs}, "
+                    f"[parse_slice (utf8_encode_all {cs}); parse_slice_with strict (utf8_encode_all {cs})])")
+        if t[0] == "b":
+            bs = cps_term(t[2])
+            return f"(false, [parse_slice {bs}; parse_slice_with strict {bs}], from_str [], [parse_slice {bs}])"
+    if fam == "c04" and t[0] == "p":
+        bar = t.index("|")
+        v, _ = value_term(t[bar + 1:])
+        o = popts_term(t[1:bar])
+        return (f"match print_with {o} {v} with Some t => match parse_str t with Ok (w, _) => "
+                f"if value_eqb w {v} then 1 else 0 | _ => 2 end | None => 3 end")
+    if fam == "c20":
+        k = {"0": "KNull", "1": "KBoolean", "2": "KNumber", "3": "KString", "4": "KArray", "5": "KObject"}
+        op = t[0]
+        try:
+            if op in ("or", "ora"):
+                return f"(0, ks_or {int(t[1])} {int(t[2])})"
+            if op in ("and", "anda"):
+                return f"(0, ks_and {int(t[1])} {int(t[2])})"
+            if op in ("ork", "orak"):
+                return f"(0, ks_or_kind {int(t[1])} {k[t[2]]})"
+            if op in ("andk", "andak"):
+                return f"(0, ks_and_kind {int(t[1])} {k[t[2]]})"
+            if op == "kor":
+                return f"(0, kind_or_ks {k[t[1]]} {int(t[2])})"
+            if op == "kand":
+                return f"(0, kind_and_ks {k[t[1]]} {int(t[2])})"
+            if op == "len":
+                return f"(0, ks_len {int(t[1])})"
+            if op in ("iter", "intoiter", "refiter"):
+                return f"(1, ks_iter {int(t[1])})"
+            if op == "iterrev":
+                return f"(1, ks_iter_rev {int(t[1])})"
+            if op == "display":
+                return f"(2, ks_display {int(t[1])})"
+            if op == "disj":
+                return f"(2, ks_disjunction {int(t[1])})"
+            if op == "conj":
+                return f"(2, ks_conjunction {int(t[1])})"
+        except (KeyError, ValueError, IndexError):
+            return None
+        return None
     if fam in ("c05", "c07"):
         # both entry points on a text, one on bytes; tagged so that model_line knows which
         if t[0] == "s":
@@ -298,6 +345,24 @@ def model_line(fam, ast):
         if ast[1] == "Err":
             return "ERR " + error_line(ast[2][0]) + " EP=1", None
         return "MODEL-" + ast[1], None
+    if fam == "c01":
+        text, many, fs, sl = ast[1]
+
+        def vd(r):
+            return {"Ok": "A", "Err": "R", "Panic": "PANIC", "OutOfFuel": "FUEL"}[r[1]]
+        if text[1] == "true":
+            return "".join(vd(r) for r in many[1]) + vd(fs) + "".join(vd(r) for r in sl[1]), None
+        return "".join(vd(r) for r in many[1]), None
+    if fam == "c04":
+        return {0: "RT=0 PRESET=1", 1: "RT=1 PRESET=1", 2: "RT=2 PRESET=1", 3: "MODEL-PANIC"}[ast], None
+    if fam == "c20":
+        tag, x = ast[1]
+        if tag == 0:
+            return str(x), "*"
+        if tag == 1:
+            ks = ["KNull", "KBoolean", "KNumber", "KString", "KArray", "KObject"]
+            return ("-" if not x[1] else ",".join(str(ks.index(e[1])) for e in x[1])), "*"
+        return cps_tok(x), "*"
     if fam in ("c05", "c07"):
         text, a, b = ast[1]
 
@@ -399,7 +464,7 @@ def crosscheck(fam, pairs, coq_dir, tmp_dir, limit=200, timeout=900):
         except Exception as e:  # the third printer failed: report, do not guess
             bad.append({"case": case, "driver": model, "coq": "UNPARSED " + repr(e) + " " + ans[:200]})
             continue
-        if m != model or (s is not None and s != spec):
+        if m != model or (s is not None and s != "*" and s != spec):
             bad.append({"case": case, "driver": model + ("\t" + spec if spec else ""),
                         "coq": m + ("\t" + s if s is not None else "")})
     return len(sel), bad, None
